@@ -73,7 +73,7 @@ def apply [Zero α] [One α] [Add α] [Mul α] (tiny : α → Bool) (A : Banded 
   let nr := if transposed then A.cols else A.rows
   let nx := if transposed then A.rows else A.cols
   if r.size != nr || x.size != nx then none
-  else if r.size == 0 && x.size == 0 then none       -- aliasing assertion on two null pointers
+  else if r.size == 0 then some r       -- `if (r.size() == Index(0)) return;` (r untouched), before the aliasing assertion
   else if transposed then none
   else some (A.kernel tiny 1 0 x r r true)
 
@@ -82,7 +82,7 @@ def applyAxpy [Zero α] [One α] [Add α] [Mul α] (tiny : α → Bool) (A : Ban
   let nr := if transposed then A.cols else A.rows
   let nx := if transposed then A.rows else A.cols
   if r.size != nr || x.size != nx || y.size != nr then none
-  else if r.size == 0 && x.size == 0 then none
+  else if r.size == 0 then some r       -- `if (r.size() == Index(0)) return;` (r untouched), before the aliasing assertion
   else if A.usedElements == 0 || tiny alpha then some (if alias then r else y)
   else if transposed then none
   else some (A.kernel tiny alpha 1 x y r alias)
